@@ -402,6 +402,10 @@ pub fn today_jdn() -> i64 {
 fn run_cli(argv: &[Vec<u8>]) -> (i64, String) {
     use std::os::unix::ffi::OsStringExt;
     use std::os::unix::process::ExitStatusExt;
+    if argv.iter().any(|a| a.contains(&0)) {
+        // a NUL byte cannot be passed in argv
+        return (0, "SKIP".into());
+    }
     let bin = std::env::var("JULIAN_BIN").unwrap_or_else(|_| "/verif/build/cli/debug/julian".into());
     loop {
         let before = today_jdn();
